@@ -31,7 +31,27 @@ def patch_fast_moments():
 
     def boom(*a, **k):
         raise RuntimeError("LP disabled by the verification harness")
+    if getattr(pbox_abc.variance_bounds_via_lp, "__name__", "") != "boom":
+        _ORIG["lp"] = pbox_abc.variance_bounds_via_lp
     pbox_abc.variance_bounds_via_lp = boom
+
+
+_ORIG = {}
+
+
+class real_moments:
+    """with pbx.real_moments(): ... runs the library's own moment pipeline (LP first) even after patch_fast_moments()"""
+
+    def __enter__(self):
+        from pyuncertainnumber.pba import pbox_abc
+        self.cur = pbox_abc.variance_bounds_via_lp
+        if "lp" in _ORIG:
+            pbox_abc.variance_bounds_via_lp = _ORIG["lp"]
+
+    def __exit__(self, *a):
+        from pyuncertainnumber.pba import pbox_abc
+        pbox_abc.variance_bounds_via_lp = self.cur
+        return False
 
 
 def dyadic(rng, lo, hi, bits=6):
